@@ -713,7 +713,35 @@ func (db *Default) removeDevice(ctx context.Context, id agd.DeviceID) {
 	db.mapsMu.Lock()
 	defer db.mapsMu.Unlock()
 
+	// Recheck under the write lock, since the database may have been refreshed
+	// after this goroutine was started.
+	if _, d := db.attachedDevice(id); d != nil {
+		return
+	}
+
 	delete(db.deviceIDToProfileID, id)
+}
+
+// attachedDevice returns the device with the given ID and its profile if the
+// device has a record and is still listed by the profile it is mapped to.
+// Otherwise, it returns nils.  It assumes that db.mapsMu is locked.
+func (db *Default) attachedDevice(id agd.DeviceID) (p *agd.Profile, d *agd.Device) {
+	profID, ok := db.deviceIDToProfileID[id]
+	if !ok {
+		return nil, nil
+	}
+
+	p, ok = db.profiles[profID]
+	if !ok || !slices.Contains(p.DeviceIDs, id) {
+		return nil, nil
+	}
+
+	d = db.devices[id]
+	if d == nil {
+		return nil, nil
+	}
+
+	return p, d
 }
 
 // removeDedicatedIP removes the device link for the given dedicated IP address
@@ -723,6 +751,13 @@ func (db *Default) removeDedicatedIP(ctx context.Context, ip netip.Addr) {
 
 	db.mapsMu.Lock()
 	defer db.mapsMu.Unlock()
+
+	// Recheck under the write lock, since a refresh may have given the address
+	// to a device after this goroutine was started.
+	_, d := db.attachedDevice(db.dedicatedIPToDeviceID[ip])
+	if d != nil && slices.Contains(d.DedicatedIPs, ip) {
+		return
+	}
 
 	delete(db.dedicatedIPToDeviceID, ip)
 }
@@ -791,6 +826,13 @@ func (db *Default) removeHumanID(ctx context.Context, k humanIDKey) {
 	db.mapsMu.Lock()
 	defer db.mapsMu.Unlock()
 
+	// Recheck under the write lock, since a refresh may have given the human ID
+	// to a device after this goroutine was started.
+	p, d := db.attachedDevice(db.humanIDToDeviceID[k])
+	if d != nil && d.HumanIDLower == k.lower && p.ID == k.profile {
+		return
+	}
+
 	delete(db.humanIDToDeviceID, k)
 }
 
@@ -855,6 +897,13 @@ func (db *Default) removeLinkedIP(ctx context.Context, ip netip.Addr) {
 
 	db.mapsMu.Lock()
 	defer db.mapsMu.Unlock()
+
+	// Recheck under the write lock, since a refresh may have given the address
+	// to a device after this goroutine was started.
+	_, d := db.attachedDevice(db.linkedIPToDeviceID[ip])
+	if d != nil && d.LinkedIP == ip {
+		return
+	}
 
 	delete(db.linkedIPToDeviceID, ip)
 }
